@@ -82,8 +82,11 @@ package dns
 //@   loop 1 invariant l >= 0
 //@   loop 1 invariant bml(bitmap, rangeindex + 1, lastwindow, lastlength, l) == bml(bitmap, 0, 0, 0, 0) && -1 <= rangeindex && rangeindex < len(bitmap)
 //@   pure
+// APL item: four header octets plus the address octets the prefix length needs (RFC 3123 4); the packer
+// writes at most that many (it trims trailing zero octets)
 //@ func (*APLPrefix).len [C08 C16]
 //@   ensures nonneg: ret0 >= 0
+//@   ensures exact: ret0 == 4 + (callres("Size", 0) + 7) / 8
 //@ iface SVCBKeyValue.len [C08 C16]
 //@   ensures nonneg: ret0 >= 0
 //@ func (*SVCBAlpn).len [C08 C16]
